@@ -127,6 +127,9 @@ def features(x):
             seen[id(o)] = 1
         if type(o).__name__ == 'StateFalsy':
             out.add('falsy-state')
+        named = o if isinstance(o, (type, types.FunctionType)) else type(o)
+        if '.' in getattr(named, '__qualname__', '') and '<locals>' not in named.__qualname__:
+            out.add('nested-qualname')
         if isinstance(o, (list, tuple, set, frozenset, collections.deque)):
             for i in o: rec(i)
         elif isinstance(o, dict):
@@ -184,6 +187,7 @@ def shapes():
     add('SlotsSubSlots', lambda x: _set(V.SlotsSubSlots(), x=x, y=[x]))
     add('SlotsSubSlots-base-only', lambda x: _set(V.SlotsSubSlots(), x=x))
     add('SlotsUnset', lambda x: _set(V.SlotsUnset(), y=x))
+    add('NestedInstance', lambda x: V.Outer.Inner(x))
     add('StateDict', lambda x: V.StateDict(x, (1, x)))
     add('StateTuple', lambda x: V.StateTuple(x, 'b'))
     add('StateFalsy', lambda x: V.StateFalsy(), False)
@@ -216,7 +220,7 @@ def shapes():
     # leaves
     for nm, v in [('Color.RED', V.Color.RED), ('Color.GREEN', V.Color.GREEN), ('Perm.R', V.Perm.R), ('Perm.RW', V.Perm.R | V.Perm.W),
                   ('complex', 1.5 - 2j), ('complex-negzero', complex(-0.0, 0.0)), ('complex-inf', complex(float('inf'), -1)), ('complex-nan', complex(float('nan'), 1)),
-                  ('complex-int', 3 + 0j), ('class', V.Plain), ('function', V.a_function), ('builtin', len), ('builtin-type', int), ('module', collections),
+                  ('complex-int', 3 + 0j), ('class', V.Plain), ('function', V.a_function), ('nested-class', V.Outer.Inner), ('nested-function', V.Outer.method), ('nested-static', V.Outer.smethod), ('builtin', len), ('builtin-type', int), ('module', collections),
                   ('Counter', collections.Counter('aab')), ('frozenset', frozenset([1, 'a'])), ('bytearray', bytearray(b'a\x00\xff')), ('range', range(1, 10, 2)),
                   ('Fraction', fractions.Fraction(3, 4)), ('Decimal', decimal.Decimal('1.50')), ('timedelta', D.timedelta(1, 2, 3)), ('time', D.time(1, 2, 3, 4)),
                   ('timezone', D.timezone(D.timedelta(hours=5), 'X')), ('timezone-utc', D.timezone.utc), ('datetime-tz', D.datetime(2001, 1, 1, tzinfo=D.timezone.utc)),
